@@ -144,6 +144,7 @@ type StepCtx struct {
 	Dg   *Dgram
 
 	n4From, gtpuFrom, reqFrom, repFrom int
+	lateFwd                            []report.SessReport // notifications handed over mid-turn (MidFwd)
 	pre                                pfcp.VerifState
 	preProj                            map[uint64]string
 	preGroups                          map[time.Duration]int
@@ -304,6 +305,7 @@ func (s *Sim) endStep(ctx *StepCtx) {
 		m.onOther(ctx)
 	}
 	s.checkStep(ctx)
+	s.applyLateFwd(ctx) // if no buffer oracle ran
 	s.coverState(ctx)
 	if s.cfg.AutoAnswer && !s.stopped1 {
 		for _, u := range ctx.newUps {
